@@ -1440,8 +1440,18 @@ class Simulation:
             if hasattr(self, name):
                 delattr(self, name)
 
-        # Return gradient from weighted residual `vector`.
-        return self.gradient
+        # Get gradient from weighted residual `vector`.
+        jtvec = self.gradient
+
+        # Restore the actual residual, and remove the gradient and the
+        # back-propagated fields, as they belong to `vector`, not the misfit.
+        self.data['residual'] = self.data.synthetic - self.data.observed
+        self._gradient = None
+        for name in ['_dict_bfield', '_dict_bfield_info']:
+            if hasattr(self, name):
+                delattr(self, name)
+
+        return jtvec
 
     # UTILS
     @property
